@@ -32,6 +32,9 @@ var c14Queries = []string{
 	`{ a: me { id } b: me { id name } }`,
 	`{ a: me { ...U } }  fragment U on User { name friends { id } }`,
 	`{ a: me { ...U } b: me { ...U } c: me { friends { ...U } } }  fragment U on User { name friends { id } }`,
+	// the same response key selected twice in one selection set (the executor merges them, the walk charges each occurrence)
+	`{ me { id } me { friends(first: 3) { name friends { id } } } }`,
+	`{ me { friends(first: 2) { id } friends(first: 2) { name } ... on User { friends(first: 2) { pet { __typename } } } } }`,
 }
 
 // index pairs (smaller, larger) of c14Queries
@@ -75,6 +78,8 @@ var c14SymKeys = [][]string{
 	{"Query.me", "User.id"},
 	{"Query.me", "User.friends"},
 	{"Query.me", "User.friends"},
+	{"Query.me", "User.friends"},
+	{"User.friends", "User.pet"},
 }
 
 func c14NewES(qi int) *c14ES {
